@@ -33,7 +33,7 @@ CHECKS["C01"] = {
     "level": "exploration",
     "technique": "bounded exhaustive enumeration (choice-tree DFS) of rule sets x requests on the real mux against a reference router",
     "level_text": "every rule set with <=2 rules and <=3 path entries (17-entry menu x 3 host matchers, every order) x 192 requests "
-                  "is served by the real mux (YAML -> supervisor.NewSpec -> reload -> ServeHTTP) and compared with an independent reference router",
+                  "is served by the real mux (YAML -> supervisor.NewSpec -> reload -> ServeHTTP) and compared with an independent reference router; job header-matchers: one entry with 1-2 header matchers (values only, regexp only, both agreeing, both contradicting, ^$) x matchAllHeader x a later header-less entry x 12 combinations of present/absent request header values",
     "level_note": "finite alphabet of matchers and requests; route cache off; HTTP/3 stubbed out (quic-go does not build); reference router = DESIGN A.1",
     "rule": "choice tree: shape of the rule set, host matcher per rule, path entry per slot; each execution serves all 192 requests; "
             "distinct_nontrivial = distinct (expected status) classes x units; outcome table counts requests per expected status",
@@ -48,7 +48,7 @@ CHECKS["C12"] = {
     "level": "model_checking",
     "technique": "exhaustive enumeration of request histories (choice-tree DFS) on the real mux with differential oracle (cache-less twin)",
     "level_text": "every request sequence up to the bound over a collision-forcing alphabet, for 60 configurations x cache sizes {1,2,64}, is served by the "
-                  "real mux with the cache on; each response is compared with the cache-less twin's answer for that request",
+                  "real mux with the cache on; each response is compared with the cache-less twin's answer for that request; configs variants/*: spellings of host (letter case, port) and path (letter case, trailing slash) that the rules tell apart",
     "level_note": "finite alphabet (hosts a/aP, methods PUT/UT, paths /p,/q, header X, two clients); the cache-less mux is stateless so its answer per request is computed once",
     "rule": "choice tree: request i of the history (16 or 32 alternatives); a fresh muxInstance (fresh ARC cache) per history; distinct_nontrivial = distinct "
             "sequences of uncached statuses observed along a history",
@@ -65,7 +65,7 @@ CHECKS["C05"] = {
     "technique": "bounded exhaustive enumeration of filter specs x client addresses (reference: net.IPNet.Contains + decision table) and of request histories x filter placements on the real mux",
     "level_text": "all allow/block specs with <=2+<=2 entries from a 14-entry menu (and every prefix length /0../32, /0../128 around two anchors) x 165 client "
                   "addresses (anchor +- one bit at every position, IPv4-mapped) decided by the real IPFilter equal the reference; all request histories up to the bound "
-                  "x 64 server/rule/path filter placements x cache sizes {0,1,16} on the real mux: denied => 4xx (403 if routed) and no handler, else equal to the filterless twin",
+                  "x 64 server/rule/path filter placements x cache sizes {0,1,16} on the real mux: denied => 4xx (403 if routed) and no handler, else equal to the filterless twin; sibling family: 2 rules x 2 paths carrying different filters under a server filter (768 placements x cache on/off x request pairs)",
     "level_note": "finite menus; client address taken from RemoteAddr / X-Forwarded-For / X-Real-IP via the real realip code",
     "rule": "unit ipfilter: choice tree (allow subset, block subset, blockByDefault) and (family, prefix length, allow|block, default), each execution decides all clients; "
             "unit mux: choice tree over histories of 36 requests; distinct_nontrivial = distinct (denied?, twin status) classes",
@@ -116,11 +116,11 @@ CHECKS["C09"] = {
     "technique": "explicit-state model checking (BFS over arrival sequences on the real limiters, observed-quantities oracle); filter reload differential in virtual time",
     "level_text": "every arrival sequence up to the bound (6 gaps incl. exact period boundaries and multi-period idle gaps) for 12 policies on the real RateLimiter, plus AcquireN and the "
                   "MQTT request+byte MultiRateLimiter, is checked against bookkeeping of release periods: per period <= limit releases, wait <= timeout, no wait while the arrival period has a "
-                  "spare permit, rejection only when every period up to the timeout horizon is full",
+                  "spare permit, rejection only when every period up to the timeout horizon is full; AcquireN with timeout 0 additionally against the window clause (k consecutive periods admit < k x limit + largest request); unit mqttlimiter: the broker's Limiter for every combination of requestRate / bytesRate / timePeriod in virtual time against the exact timeout-0 reference",
     "level_note": "clock owned through ratelimiter.nowFunc; period 10ms; canonical state = remaining reservations + phase within the period + per-period release counts from now on",
     "rule": "BFS per policy; state = canonical dump of the limiter's private fields and the oracle's bookkeeping; distinct_nontrivial = distinct outcome classes (admit-now, admit-wait-k-periods, reject)",
     "explanation": "states = distinct canonical states; transitions = arrivals applied to a fresh real limiter after replaying the shortest path",
-    "bounds": {"quick": "<=8 arrivals (6 with AcquireN, 5 multi)", "thorough": "<=11 arrivals (8 with AcquireN, 7 multi)"},
+    "bounds": {"quick": "<=8 arrivals (6 with AcquireN, 5 multi); mqtt limiter 4 packets", "thorough": "<=11 arrivals (8 with AcquireN, 7 multi); mqtt limiter 6 packets"},
     "assumptions": ["time read only through nowFunc"],
     "units": [
         {"name": "ratelimiter", "pkg": "pkg/util/ratelimiter", "test": "TestVerifC09"},
@@ -138,11 +138,11 @@ CHECKS["C04"] = {
     "technique": "exhaustive exploration of random answers and key sequences (choice-tree DFS) + controlled-scheduler enumeration of selector/list-replacement interleavings on the real ServerPool",
     "level_text": "sequential: every policy x 1..4 servers x weight vectors x discovery variants with EVERY answer of every rand.Intn call explored; concurrent: 2-3 selectors x 2 selections "
                   "interleaved with a discovery update at gate granularity (atomic counter, atomic.Value load/store, rand) up to the preemption bound; oracle: picks inside the current list, "
-                  "roundRobin floor/ceil fairness per list generation, hash stickiness, zero-weight never chosen, no failure/panic for validation-accepted pools",
+                  "roundRobin floor/ceil fairness per list generation, hash stickiness, zero-weight never chosen, no failure/panic for validation-accepted pools; unit lbdiscovery: every history of registry contents (7 contents incl. empty, untagged, doubly tagged, other service) pushed through a real ServiceRegistry and the pool's own watch goroutine: the pool hands out exactly the qualifying instances of the latest content, else the static list",
     "level_note": "math/rand and sync/atomic of loadbalance.go/pool.go replaced by gated shims in an overlay copy; fnSendRequest stubbed; counter wrap-around not covered",
     "rule": "choice tree: weight config, rand answers, discovery variant / scheduler choices; distinct_nontrivial = distinct (policy,n,weights,discovery) or (picks per generation) classes",
     "explanation": "states = executions (each a distinct choice sequence); transitions = executions; every execution ran on the real code",
-    "bounds": {"quick": "seq: all; sched: preemption bound 2", "thorough": "seq: all; sched: preemption bound 3"},
+    "bounds": {"quick": "seq: all; sched: preemption bound 2; discovery histories of 3 changes", "thorough": "seq: all; sched: preemption bound 3; discovery histories of 4 changes"},
     "assumptions": ["between two gates a goroutine runs atomically (race pass is separate)"],
     "units": [
         {"name": "lbseq", "pkg": "pkg/filters/proxy", "test": "TestVerifC04", "inject": [PROXYRIG], "instrument": C04INSTR},
@@ -156,7 +156,7 @@ CHECKS["C10"] = {
     "technique": "exhaustive enumeration (choice-tree DFS) of per-attempt outcomes x cancellation instants x jitter extremes on the real ServerPool.handle in virtual time (testing/synctest)",
     "level_text": "for 26 retry/timeout/stream configurations every vector of per-attempt backend outcomes (ok, 503, network error, hang, slow ok, slow 503), every cancellation instant of the menu "
                   "and the extremes/middle of every jitter draw are executed on the real retry wrapper + pool; oracle: attempts <= maxAttempts, stop at first success, back-off lower bound on the virtual clock, "
-                  "no attempt after cancel, final status/result = last attempt's, stream bodies sent once, per-attempt timeout => 408/timeout; breaker around retry opens at the N-th failed CLIENT request and then answers 503 shortCircuited without calling the backend",
+                  "no attempt after cancel, final status/result = last attempt's, stream bodies sent once, per-attempt timeout => 408/timeout; breaker around retry opens at the N-th failed CLIENT request and then answers 503 shortCircuited without calling the backend; client requests cancelled inside an attempt or a back-off still record one outcome (kind-agnostic: window 2 / 50% must be open after two requests of which one really failed)",
     "level_note": "fnSendRequest stubbed; math/rand of pkg/resilience/retry.go replaced by vrand (5 representative answers per draw: 0,1,n/2,n-2,n-1); virtual time from synctest",
     "rule": "choice tree: cancel instant, outcome of each attempt actually made, jitter representative; distinct_nontrivial = distinct (attempt count, final status, result) classes",
     "explanation": "states = executions; each execution ran the real handle() to completion on the virtual clock",
@@ -190,7 +190,7 @@ CHECKS["C06"] = {
     "level_text": "for JWT (3 algorithms x 2 secrets x 4 claim sets x header/cookie), API signature (2 methods x 3 paths incl. escaped/non-ASCII x 4 queries x 3 body sizes x scopes x header/presign style x ttl), "
                   "Basic (2 users x 5 passwords incl. ':' / non-ASCII / empty x bcrypt/SHA) and header rules (alone and combined with JWT): every base request built by an independent issuer must be accepted, "
                   "and every single mutation of a covered part (token/signature bytes, algorithm, secret, method, path, query, signed header, body, key id, password, age) must be rejected with invalid + 401/400; "
-                  "requests are given to the filter exactly as the HTTP server does (body already read by FetchPayload)",
+                  "requests are given to the filter exactly as the HTTP server does (body already read by FetchPayload); Basic: passwords with inner/outer white space and mutations that add blank, tab, LF or CRLF around user or password",
     "level_note": "finite menus; OAuth2 token introspection (needs a remote endpoint) and ETCD basic-auth mode are not covered; wall-clock based ttl/exp checks use margins of >= 1 s .. 1 h",
     "rule": "choice tree: configuration, base-request dimensions, mutation index (0 = none); distinct_nontrivial = distinct (method, accepted variant | rejected mutation) classes",
     "bounds": {"quick": "full product of the menus x all single mutations", "thorough": "same"},
@@ -209,7 +209,7 @@ CHECKS["C15"] = {
     "level": "model_checking",
     "technique": "exhaustive enumeration of subscriber populations x QoS x map visiting orders x ack behaviours on the real broker goroutines, run to quiescence on the virtual clock of a testing/synctest bubble",
     "level_text": "real Broker (real newBroker, in-memory listener) with raw MQTT clients over net.Pipe: every population of 2-3 subscribers (filters t,+,#,non-matching x QoS 0/1) x message QoS x EVERY order in which "
-                  "sendMsgToClient visits the subscriber map; QoS1 retransmission every 200 ms until PUBACK and never after, for ack after 0/1/3 periods or never; QoS0 bursts; client QoS1 PUBLISH with publish limiter and dropping pipeline",
+                  "sendMsgToClient visits the subscriber map; QoS1 retransmission every 200 ms until PUBACK and never after, for ack after 0/1/3 periods or never; QoS0 bursts; client QoS1 PUBLISH with publish limiter and dropping pipeline, PUBACKs read promptly or only after the burst",
     "level_note": "net of broker.go redirected to an in-memory listener; the range over the subscriber map in sendMsgToClient rewritten to an explorer-chosen key order (if the site is not found the check "
                   "reports an instrumentation gap and runs with sorted order); goroutines run free between quiescent points (no interleaving control in this check)",
     "rule": "choice tree: filter and QoS of each subscriber, message QoS, visiting order, ack delay, burst size, limiter/drop/gap; distinct_nontrivial = distinct outcome classes",
